@@ -401,7 +401,12 @@ class Ctl:
             return "switch (%s) { %s }" % (r.choice(["a", "b % 3", "c", "a + b"]), " ".join(cases))
         if k in (9, 10, 11):
             tb = self.block(d - 1)
-            form = r.randrange(4)
+            form = r.randrange(5)
+            if form == 4:
+                # the exit leaves a block that shadows `q` THROUGH the finally: the finally block runs in the scope of the try statement
+                self.ids += 1
+                return ("try { { let q = 'i%d'; %s if (%s) { %s } %s } } %sfinally { t('f' + q); %s }"
+                        % (self.ids, self.mark(), self.cond(), self.exit_stmt(), self.simple(), r.choice(["", "catch (e) { t('c' + q); } "]), self.simple()))
             if form == 0:
                 return "try { %s } catch (e) { t(String(e && e.message || e)); %s }" % (tb, self.block(d - 1, r.randrange(0, 3)))
             if form == 1:
